@@ -4,7 +4,7 @@
    directives of our own. *)
 Require Extraction.
 Require Import ExtrOcamlBasic.
-From PF Require Import Opcodes RefTable Config Sim Ref Lex Envelope Oracles Check Entropy Mutators Gen Front.
+From PF Require Import Opcodes RefTable Config Sim Ref Lex Envelope Oracles Check Entropy Mutators Gen Front Heap.
 Extraction Language OCaml.
 Extraction "model.ml"
   all_opcodes op_name op_index op_eqb
@@ -23,4 +23,5 @@ Extraction "model.ml"
   ok_choose_index ok_gen_range ok_ascii ok_bytes
   contract_int contract_float contract_seq contract_memo contract_post
   applies_int applies_float applies_seq applies_memo int_boundaries long_boundaries
+  heap_init heap_step has_cycle
   cli_config default_min default_max default_rate default_samples py_new py_set_opcode_range action_run.
